@@ -250,6 +250,17 @@ def corpus():
         "I": [["a"], ["[", "L", "]"], ["[", "!", "]"], ["b", "!", "c"]]}))
     C.append(G("rec_top", ["x", ";"], {
         "S": [["x", ";"], ["S", "x", ";"], ["!", ";"]]}))
+    # recovery followed by nullable symbols: `accepts` must simulate empty reductions
+    C.append(G("rec_opt", ["let", "id", "=", "num", ";"], {
+        "S": [["let", "id", "I", ";"], ["let", "!", "I", ";"]],
+        "I": [[], ["=", "num"]]}))
+    C.append(G("rec_star", ["(", ")", "a", ","], {
+        "S": [["(", "L", ")"], ["(", "!", "L", ")"]],
+        "L": [[], ["L", "a"]]}))
+    C.append(G("rec_opt2", ["a", "b", "c", "d"], {
+        "S": [["X", "d"], ["S", "X", "d"]],
+        "X": [["a", "O", "P"], ["!", "O", "P"]],
+        "O": [[], ["b"]], "P": [[], ["c"]]}))
     # fallible actions
     C.append(G("fall_expr", ["+", "(", ")", "x"], {
         "S": [(["S", "+", "T"], ["fallible"]), ["T"]],
@@ -274,14 +285,14 @@ def random_grammar(r, idx, recovery=False, fallible=False):
     for k, nt in enumerate(nts):
         alts = []
         for _ in range(r.randint(1, 3)):
-            n = r.choice([0, 1, 1, 2, 2, 3, 4])
+            n = r.choice([0, 0, 1, 1, 2, 2, 3, 4])
             a = []
             for _ in range(n):
                 if r.random() < 0.55:
                     a.append(r.choice(terms))
                 else:
                     a.append(r.choice(nts))
-            if recovery and r.random() < 0.2:
+            if recovery and r.random() < 0.25:
                 a.insert(r.randint(0, len(a)), "!")
             alts.append(a)
         # make sure something terminal-only exists for the last nonterminals (productivity)
